@@ -503,6 +503,12 @@ def main(rep, ws, tier):
     counts = {}
     for name, fnc in RULES:
         counts[name] = fnc(fx, out)
+    # in-place operators on a masked reference with a right-hand side of the unmasked length: which element of the right-hand
+    # side meets element k of the view (shared with C20, where it is R20.len)
+    from . import c20 as _c20
+    out2 = []
+    counts['maskrhs'] = _c20.rule_unmasked(fx, out2)
+    out += [('R19.idx', oid, st, det, w) for (_r, oid, st, det, w) in out2]
     emit(rep, out)
     from . import c19ir
     nidx = c19ir.main_idx(rep, ws)
